@@ -69,7 +69,17 @@ func Run(run *ev.Run) {
 		for _, e := range endpointNames {
 			mand = append(mand, "http:endpoint-served:"+e+":"+rn)
 		}
-		mand = append(mand, "http:jwt-bearer:scope-rejected-by-storage:"+rn, "http:implicit-form-post-callback:"+rn)
+		mand = append(mand, "http:jwt-bearer:scope-rejected-by-storage:"+rn, "http:implicit-form-post-callback:"+rn, "http:code-exchange:stray-verifier-on-non-pkce-code:"+rn)
+		// code_verifier kind x PKCE class of a fresh code, unmutated request: each margin at quick, the full grid at thorough
+		for _, pk := range []string{"no-pkce", "pkce-S256", "pkce-plain"} {
+			mand = append(mand, "http:code-exchange:fresh-code-class:"+pk+":"+rn)
+			for _, vk := range []string{"absent", "right", "wrong", "challenge-itself", "empty", "one-char", "200-chars"} {
+				mand = append(mand, "http:code-exchange:verifier-kind:"+vk+":"+rn)
+				if run.Tier == ev.Thorough {
+					mand = append(mand, "http:code-exchange:verifier:"+vk+":"+pk+":fresh:"+rn)
+				}
+			}
+		}
 		for _, m := range cleanRejections {
 			mand = append(mand, "http:storage-rejects-valid-request:"+m+":"+rn)
 		}
@@ -317,6 +327,29 @@ func (x *world) judge(q *Req, router int, resp *opdrv.Resp) {
 	for _, m := range q.Muts {
 		run.Count("http:mutation", mutBucket(m))
 	}
+	for _, t := range q.Tags {
+		run.Count("http:template_choice", t)
+	}
+	if len(q.Muts) == 0 && endpoint == "token" {
+		// unmutated code exchanges: the code was known to the storage when the request arrived
+		known := false
+		for _, e := range journal {
+			if e.Method == "AuthRequestByCode" && e.Err == "" {
+				known = true
+			}
+		}
+		for _, t := range q.Tags {
+			if known && t == "stray-verifier-on-fresh-non-pkce-code" {
+				run.Observed("http:code-exchange:stray-verifier-on-non-pkce-code:" + rn)
+			}
+			if p := strings.Split(t, ":"); known && len(p) == 4 && p[0] == "verifier" && p[3] == "fresh" {
+				run.Observed("http:code-exchange:" + t + ":" + rn)
+				run.Observed("http:code-exchange:verifier-kind:" + p[1] + ":" + rn)
+				run.Observed("http:code-exchange:fresh-code-class:" + p[2] + ":" + rn)
+				run.Count("http:code_exchange_verifier_grid:"+rn, p[1]+"|"+p[2])
+			}
+		}
+	}
 	for _, e := range journal {
 		run.Count("http:storage_calls", e.Method)
 		if e.Err != "" && !e.Fault {
@@ -374,7 +407,7 @@ func (x *world) judge(q *Req, router int, resp *opdrv.Resp) {
 		}
 		violate("panic:"+site, fmt.Sprintf("%s router: handler of %s panicked (%s) %s", rn, endpoint, pi.Value, written),
 			map[string]any{"panic": map[string]any{"value": pi.Value, "frame": pi.Frame, "stack": trim(pi.Stack, 6000)}})
-		run.Distinct(strings.Join([]string{"http", rn, q.Op, dimMuts(q.Muts), "panic"}, "|"))
+		run.Distinct(strings.Join([]string{"http", rn, q.Op, dimMuts(q.Muts), dimTags(q.Tags), "panic"}, "|"))
 		return
 	}
 
@@ -385,7 +418,7 @@ func (x *world) judge(q *Req, router int, resp *opdrv.Resp) {
 		ct = resp.SentHeader.Get("Content-Type")
 	}
 	run.Count("http:response_content_type", ct)
-	run.Distinct(strings.Join([]string{"http", rn, q.Op, dimMuts(q.Muts), fmt.Sprint(status)}, "|"))
+	run.Distinct(strings.Join([]string{"http", rn, q.Op, dimMuts(q.Muts), dimTags(q.Tags), fmt.Sprint(status)}, "|"))
 
 	// ----- 2. a response, written once -----
 	if status == 0 {
@@ -498,6 +531,15 @@ func (x *world) judge(q *Req, router int, resp *opdrv.Resp) {
 	if q.Flow && q.Op == "flow:exchange" && status == 200 {
 		run.SampleKind("http:flow", map[string]any{"router": rn, "request": q, "response": litResp(resp)})
 	}
+}
+
+func dimTags(ts []string) string {
+	if len(ts) == 0 {
+		return "-"
+	}
+	b := append([]string(nil), ts...)
+	sort.Strings(b)
+	return strings.Join(b, "+")
 }
 
 func dimMuts(ms []string) string {
